@@ -3,7 +3,7 @@
    sumbool mapped to OCaml's own); N, positive, Z, byte are extracted as is. *)
 From Coq Require Extraction.
 From Coq Require Import ExtrOcamlBasic.
-From GoUefi Require Import Base.Bytes Base.Hex Base.Outcome Model.Util Model.WinCert Model.SigList Model.SigDb Model.VarIO Model.Device Spec.VarCheck Spec.DevCheck Spec.C17Check Spec.C10Check Spec.SigCheck.
+From GoUefi Require Import Base.Bytes Base.Hex Base.Outcome Model.Util Model.WinCert Model.SigList Model.SigDb Model.VarIO Model.Device Spec.VarCheck Spec.DevCheck Spec.SafetyCheck Spec.C17Check Spec.C10Check Spec.SigCheck.
 
 Extraction Language OCaml.
 Set Extraction Optimize.
@@ -19,4 +19,5 @@ Extraction "model.ml"
   Spec.SigCheck.run_history
   Spec.VarCheck.check_write Spec.VarCheck.check_read Spec.VarCheck.check_read_legacy Spec.VarCheck.run_store
   Spec.DevCheck.check_boot_order Spec.DevCheck.check_load_option Spec.DevCheck.load_option_decodes
-  Spec.DevCheck.check_hd_text Spec.DevCheck.check_file_text Model.Device.parse_device_path.
+  Spec.DevCheck.check_hd_text Spec.DevCheck.check_file_text Model.Device.parse_device_path
+  Spec.SafetyCheck.check_safety.
